@@ -290,7 +290,7 @@ func ruleR13(c *Ctx) {
 		guards := guardsOf(info, g)
 		_, ycalls := yieldsOf(u)
 		switch {
-		case parent.Name == "rangeScan":
+		case unitBase(parent.Name) == "rangeScan":
 			props := []string{"C03", "C09"}
 			// parameters #1 and #2 of the parent are the lower and upper bound
 			var pnames []*types.Var
@@ -514,6 +514,12 @@ func ruleR13(c *Ctx) {
 							c.r.ok("R13", key, m.pos(as.Pos()), "swap of the two bounds", "C03")
 						case pi == 1 && len(as.Rhs) == 1:
 							call, _ := ast.Unparen(as.Rhs[0]).(*ast.CallExpr)
+							if call == nil {
+								// end = last with last, _, ok := t.Maximum()
+								if lv := identVar(info, as.Rhs[0]); lv != nil {
+									call = c.defCallOf(ru, lv)
+								}
+							}
 							okDef := call != nil && c.isGreatestKeyCall(ru, call, 0)
 							if okDef {
 								c.r.ok("R13", key, m.pos(as.Pos()), "an empty upper bound defaults to the greatest stored key", "C03")
@@ -528,7 +534,7 @@ func ruleR13(c *Ctx) {
 					return true
 				})
 			}
-		case parent.Name == "filter":
+		case unitBase(parent.Name) == "filter":
 			props := []string{"C04"}
 			for _, yc := range ycalls {
 				// the yield may sit in a visitor literal handed to a leaf walker: the predicate test
@@ -981,9 +987,9 @@ func ruleR39R40(c *Ctx) {
 					name = m.calleeName(call)
 				}
 				switch {
-				case name == "filter":
+				case unitBase(name) == "filter":
 					c.r.ok("R40", key, m.pos(rs.Pos()), "filter(subtree, hasPrefix, restoreKey)", props...)
-				case strings.HasSuffix(name, ".All") || name == "all":
+				case strings.HasSuffix(name, ".All") || unitBase(name) == "all":
 					// only for the empty prefix
 					fs := fl.setBefore(b, k)
 					empty := false
@@ -1100,7 +1106,7 @@ func (c *Ctx) returnsFilter(cu, from *FuncUnit, depth int) bool {
 		if !ok || isConversion(info, call) {
 			return false
 		}
-		if c.m.calleeName(call) == "filter" {
+		if unitBase(c.m.calleeName(call)) == "filter" {
 			continue
 		}
 		if !c.returnsFilter(c.m.calleeUnit(call), cu, depth+1) {
@@ -1196,4 +1202,15 @@ func (c *Ctx) keyParamSource(u *FuncUnit, v *types.Var) *types.Var {
 		}
 	}
 	return nil
+}
+
+// unitBase: the name of a function without its receiver (leafScanner.filter → filter).
+func unitBase(name string) string {
+	if i := strings.IndexByte(name, '$'); i >= 0 {
+		name = name[:i]
+	}
+	if i := strings.LastIndexByte(name, '.'); i >= 0 {
+		return name[i+1:]
+	}
+	return name
 }
